@@ -110,6 +110,29 @@ func zzFamily(fam, n int) string {
 			text += " x" + zzItoa(i) + ":o{o{x}}"
 		}
 		return text + " }"
+	case 7, 8, 9: // diamond chain (every fragment spreads the next one twice) under variable-driven directives
+		text := "query Q($v: Boolean!, $w: Boolean!) { ...F0 @include(if: $v) }"
+		d1, d2 := "", ""
+		if fam == 8 {
+			d1, d2 = " @include(if: $v)", " @include(if: $v)"
+		}
+		if fam == 9 {
+			d1, d2 = " @include(if: $v)", " @skip(if: $w)"
+		}
+		for i := 0; i < n; i++ {
+			body := "a"
+			if i+1 < n {
+				body = "a ..." + zzFragName(i+1) + d1 + " ..." + zzFragName(i+1) + d2
+			}
+			text += " fragment " + zzFragName(i) + " on Query{" + body + "}"
+		}
+		return text
+	case 10: // the same response key repeated under different variable-driven directives, nested
+		text := "query Q($v: Boolean!, $w: Boolean!) {"
+		for i := 0; i < n; i++ {
+			text += " o @include(if: $v) { x o { y } } o @skip(if: $w) { y o { x } }"
+		}
+		return text + " }"
 	}
 	return "{ a }"
 }
@@ -117,7 +140,7 @@ func zzFamily(fam, n int) string {
 // ZZ_C19_growth: for each scaled family, doubling the size multiplies the cost
 // of validation+planning by at most 12 (i.e. growth is at most cubic).
 func ZZ_C19_growth() {
-	fam := zzChoice("family", 7)
+	fam := zzChoice("family", 11)
 	w := &zzWorld{}
 	schema := zzBuildSchema(w)
 	n := zzParam("N", 6)
